@@ -501,7 +501,7 @@ RAW_POOL = [
     I(0), I(1), I(-3), I(12), I(10 ** 30), Fl(1.5), Fl(-0.0), Fl(1e-05), Fl(1e22), Fl(float("nan")), Fl(float("inf")),
     {"t": "bool", "v": 1}, {"t": "bool", "v": 0},
     S("12"), S("-7"), S("+3"), S("1.5"), S(".5"), S("2."), S("abc"), S(""), S("true"), S("False"), S("TRUE"), S("0"), S("1"),
-    S("2"), S(" 7 "), S("1e5"), S("nan"), S("Float"), S("Integer"), S("Positive Float"), S("Fuzzy"), S("float"),
+    S("2"), S(" 7 "), S("1e5"), S("nan"), S("inf"), S("1e999"), S("-Infinity"), S("Float"), S("Integer"), S("Positive Float"), S("Fuzzy"), S("float"),
     S("PData"), S("PFuzzy"), S("PNum"), S("USrc"), S("UNoOut"), S("URead"), S("UFz"), S("UPrint"), S("Missing"), S("café"),
     {"t": "path", "kind": "abs_existing"}, {"t": "path", "kind": "abs_missing"}, {"t": "path", "kind": "rel_existing"},
     {"t": "path", "kind": "rel_missing"},
